@@ -5206,3 +5206,49 @@ def syn9(ctx):
                  "is_valid_char and the char-escape arm of get_unicode_escape disagree (%s): a special character that is_valid_char lets through is read as part of a replacement string instead of as its token -- with `∅` missing, `$ > ∅` prints a `∅` at every syllable boundary while `$ > *` deletes them"
                  % "; ".join(x for x in ("only escapable: " + " ".join(missing) if missing else "", "only excluded: " + " ".join(extra) if extra else "") if x))
     return r
+
+
+# ---------------------------------------------------------------- PAN-18: a backward walk stops at index 0
+
+def pan18(ctx, unit=None, prefix="asca::", floor=0):
+    """`while xs[i - 1] == last { i -= 1 }` walks backwards over a run. On unsigned indices the walk needs its own stop:
+    a loop whose condition indexes with `i - k` also tests `i > 0` (`i >= k`, `i != 0`) in the same condition, ahead of
+    the index -- otherwise a run that reaches the start of the list underflows (`attempt to subtract with overflow`)."""
+    r = RuleResult("PAN-18", "a `while` condition that indexes with `i - k` tests `i > 0` / `i >= k` first (no backward walk runs off the start of a list)", floor=floor)
+    lib = unit or ctx.lib
+    n = 0
+    for b in lib.bodies:
+        if b.in_test_mod() or not b.hir or b.kind == "closure" or not b.path.startswith(prefix):
+            continue
+        k = 0
+        for x in hirq.walk(b.hir["body"]):
+            if x["e"] != "loop" or "While" not in str(x.get("src")):
+                continue
+            body = hirq.strip(x["body"])
+            cond = body.get("cond") if body.get("e") == "if" else None
+            if cond is None:
+                continue
+            for y in hirq.walk(cond):
+                if y["e"] != "index":
+                    continue
+                subs = [z for z in hirq.walk(y["i"]) if z["e"] == "binary" and z["op"] == "Sub"]
+                if not subs:
+                    continue
+                n += 1
+                var = hirq.strip(subs[0]["a"])
+                vname = var.get("local") if var.get("e") == "path" else None
+                guarded = False
+                for z in hirq.walk(cond):
+                    if z["e"] == "binary" and z["op"] in ("Gt", "Ge", "Ne", "Lt", "Le") and any(w["e"] == "path" and w.get("local") == vname for w in hirq.walk(z)) \
+                            and not any(w is y for w in hirq.walk(z)):
+                        guarded = True
+                short = b.path.rsplit("::", 1)[-1]
+                r.inst("%s: backward index `%s - ..` in a loop condition #%d is bounded below" % (short, vname, k), fn_loc(b, x.get("ln")), "ok" if guarded else "report")
+                if not guarded:
+                    r.report("PAN-18|%s|#%d" % (short, k), fn_loc(b, x.get("ln")), b.path,
+                             "the loop walks backwards with `[%s - 1]` in its condition and has no test that `%s` is still above 0: when the run it walks over reaches the start of the list the subtraction underflows and the call panics -- with `+´ > [+str]` the word `á.ta` (a one-segment syllable) panics in Word::new" % (vname, vname))
+                k += 1
+    if n < floor:
+        raise AnchorMissing("PAN-18: %d backward walks found (expected >= %d)" % (n, floor))
+    r.analysed = {"backward_walks": n}
+    return r
